@@ -274,8 +274,11 @@ public:
     //! release contained pointer, frees object if this is the last reference.
     void reset()
     {
-        dec_reference();
-        ptr_ = nullptr;
+        // let go first, release last: the handle must not point to the object
+        // any more while it is destroyed (its destructor may look at or copy
+        // this handle, or destroy the object this handle is a member of).
+        CountingPtr tmp;
+        swap(tmp);
     }
 
     //! swap enclosed object with another counting pointer (no reference counts
